@@ -18,7 +18,10 @@ RULE = ("environment = TZDIR {unset, empty, valid dir, nonexistent, a file} x TZ
         "':'-prefixed, with '..', UTC, UTC0, fixed, zero fixed, unreadable as uid nobody) plus local_time_zone() and a "
         "default-constructed zone; expected outcome from the model, data identity by comparing the zone digest with that of the "
         "same file loaded by absolute path in the same child. Non-trivial = distinct (environment, name) pair whose expected "
-        "outcome is not the trivial internal-name case. Thorough adds strace fault injection on the zone file's reads.")
+        "outcome is not the trivial internal-name case. Plus: every proper prefix of 7 well-formed files (version 1 with "
+        "indicator bytes, versions 2/3/4, shipped zones) loaded by absolute path must fail with UTC; 60 (thorough 400) in-process "
+        "histories that change TZDIR/TZ/LOCALTIME between calls (a name resolves against the environment of its first load). "
+        "Thorough adds strace fault injection on the zone file's reads.")
 
 FIXED_RE = re.compile(r"^Fixed/UTC([+-])(\d\d):(\d\d):(\d\d)$")
 
@@ -342,6 +345,13 @@ def run(prop, tier, seed, replay=None):
                            (tag, lname, lutc, zone, exp_ok, got.get("file:America/New_York")))
     cov = dict(evaluations=evaluations, distinct_nontrivial=len(nontrivial), rule=RULE, samples=samples, names=len(names), environments=len(combos))
     cov.update(stats)
+    if not replay:
+        n1 = prefix_leg(chk, cov, exe, base_env, w, seed)
+        n2 = sequence_leg(chk, cov, exe, base_env, w, seed, 400 if tier == "thorough" else 60)
+        evaluations += n1 + n2
+        cov["evaluations"] = evaluations
+        if n1 == 0 or n2 == 0 or cov.get("env_sequence_first_loads_after_a_change", 0) == 0:
+            chk.inconclusive_because("prefix or environment-sequence leg observed nothing")
     if tier == "thorough" and not replay:
         fault_leg(chk, cov, exe, base_env, tzdir)
     chk.coverage = cov
@@ -417,3 +427,248 @@ def fault_leg(chk, cov, exe, base_env, tzdir):
     cov["fault_injections_fired"] = fired
     if fired == 0:
         chk.inconclusive_because("no injected fault fired (strace -P filter matched nothing)")
+
+
+# --------------------------------------------------------------------------- extra legs
+def _probe_lines(exe, args, env, timeout=300):
+    p = subprocess.run([exe] + args, env=env, stdout=subprocess.PIPE, stderr=subprocess.PIPE, text=True, errors="replace", timeout=timeout)
+    return p, [ln.split() for ln in p.stdout.splitlines()]
+
+
+def prefix_leg(chk, cov, exe, base_env, w, seed):
+    """Every proper prefix of a well-formed file is not a TZif file: load_time_zone(absolute path) must fail with UTC,
+    through the library's own file data source (whose Skip() is a seek). Base files: a version-1 file with
+    standard/UT indicator bytes, a small version-2+ file of each version byte, and a shipped zone (sampled)."""
+    import random
+    r = random.Random("prefix/%d" % seed)
+    d = os.path.join(w, "prefixes")
+    os.makedirs(d, exist_ok=True)
+    os.chmod(d, 0o755)
+    bases = []
+    types = [(-17762, 0, 0), (-18000, 0, 4), (-14400, 1, 8)]
+    abbrs = b"LMT\0EST\0EDT\0"
+    trans = [(-2717650800, 1), (-1633280400, 2), (-1615140000, 1), (1173596400, 2), (1194156000, 1)]
+    bases.append(("v1-indicators", corpus.tzif_bytes(trans, types, abbrs, "", version=b"\0", v1="fat", isstd=[0, 1, 1], isut=[0, 0, 1])))
+    for ver in (b"2", b"3", b"4"):
+        bases.append(("v%s-indicators" % ver.decode(), corpus.tzif_bytes(trans, types, abbrs, "EST5EDT,M3.2.0,M11.1.0", version=ver, v1=r.choice(["slim", "fat"]),
+                                                                           isstd=[0, 1, 1], isut=[0, 0, 1])))
+    bases.append(("v2-plain", corpus.tzif_bytes(trans, types, abbrs, "EST5EDT,M3.2.0,M11.1.0", version=b"2", v1="slim")))
+    bases.append(("shipped-Kolkata", open(os.path.join(corpus.REPO, "testdata", "zoneinfo", "Asia", "Kolkata"), "rb").read()))
+    bases.append(("shipped-New_York", open(os.path.join(corpus.REPO, "testdata", "zoneinfo", "America", "New_York"), "rb").read()))
+    names = []
+    expect = {}
+    for bname, data in bases:
+        n = len(data)
+        cuts = set(range(0, n)) if n <= 400 else set(range(0, 60)) | set(range(n - 120, n)) | {r.randrange(60, n - 120) for _ in range(80)}
+        full = os.path.join(d, bname + "-full")
+        with open(full, "wb") as f:
+            f.write(data)
+        names.append(full)
+        expect[full] = True
+        for k in sorted(cuts):
+            p = os.path.join(d, "%s-%05d" % (bname, k))
+            with open(p, "wb") as f:
+                f.write(data[:k])
+            names.append(p)
+            expect[p] = False
+    utc_dig = None
+    done = 0
+    failed_ok = 0
+    for i in range(0, len(names), 150):
+        chunk = names[i:i + 150]
+        p, lines = _probe_lines(exe, ["UTC"] + chunk, base_env)
+        if p.returncode != 0:
+            errfile = os.path.join(w, "prefix-%d.err" % i)
+            with open(errfile, "w") as f:
+                f.write(p.stderr)
+            key, text = core.crash_key("exit%d" % p.returncode, errfile, "class=prefix")
+            chk.violation(key, "prefix leg\n%s" % text[:2000], files=[errfile])
+            continue
+        for f in lines:
+            if f[0] != "L":
+                continue
+            n = unhex(f[1])
+            if n == "UTC":
+                utc_dig = f[5]
+                continue
+            ok = f[2] == "1"
+            done += 1
+            want = expect[n]
+            # the model's own reader must agree with the construction
+            if loadable(n) != want:
+                chk.inconclusive_because("model reader disagrees with the construction for %s" % os.path.basename(n))
+                continue
+            if ok != want:
+                chk.violation("resolve:load-%s-but-model-%s:%s" % ("succeeded" if ok else "failed", "succeeds" if want else "fails",
+                                                                    "truncated-file" if not want else "complete-file"),
+                              "file %s (%d bytes of %s)" % (os.path.basename(n), os.path.getsize(n), os.path.basename(n).rsplit("-", 1)[0]))
+            elif not ok:
+                failed_ok += 1
+                if f[4] != "1" or unhex(f[3]) != "UTC" or f[5] != utc_dig:
+                    chk.violation("resolve:failed-load-not-utc:truncated-file", "file %s" % os.path.basename(n))
+    cov["prefix_files_loaded"] = done
+    cov["prefix_files_rejected_as_expected"] = failed_ok
+    cov["prefix_base_files"] = [b[0] for b in bases]
+    return done
+
+
+def sequence_leg(chk, cov, exe, base_env, w, seed, nseq, prop="C19"):
+    """Histories that change TZDIR / TZ / LOCALTIME *between* calls inside one process. Model: a name's first load
+    resolves against the environment of that moment and is remembered (success or failure) for the life of the
+    process; local_time_zone() reads TZ and LOCALTIME afresh on every call and then loads that name."""
+    import random
+    r = random.Random("seq/%d" % seed)
+    root = os.path.join(w, "seq")
+    A, B = os.path.join(root, "A"), os.path.join(root, "B")
+    src = os.path.join(corpus.REPO, "testdata", "zoneinfo")
+
+    def put(dirp, rel, zone):
+        p = os.path.join(dirp, rel)
+        os.makedirs(os.path.dirname(p), exist_ok=True)
+        shutil.copy(os.path.join(src, zone), p)
+    put(A, "Zone/X", "America/New_York")
+    put(B, "Zone/X", "Europe/Dublin")
+    put(A, "Zone/Y", "Asia/Kolkata")
+    put(B, "Zone/Y", "Asia/Kolkata")
+    put(A, "OnlyA", "Australia/Lord_Howe")
+    put(B, "OnlyB", "Pacific/Apia")
+    put(A, "localtime", "Asia/Tokyo")
+    put(B, "localtime", "Africa/Casablanca")
+    put(root, "lt1", "Europe/Lisbon")
+    put(root, "lt2", "America/Nuuk")
+    for dd, _, _fs in os.walk(root):
+        os.chmod(dd, 0o755)
+    os.chmod(w, 0o755)
+    lt1, lt2 = os.path.join(root, "lt1"), os.path.join(root, "lt2")
+    V = {"TZDIR": [A, B, None, os.path.join(root, "nonexistent"), ""],
+         "TZ": [None, "", "Zone/X", ":Zone/Y", "localtime", ":localtime", "No/Such", os.path.join(A, "OnlyA"), "Fixed/UTC+02:00:00", "OnlyB"],
+         "LOCALTIME": [None, lt1, lt2, os.path.join(root, "missing"), "Zone/X", "OnlyA"]}
+    NAMES = ["Zone/X", "Zone/Y", "OnlyA", "OnlyB", "No/Such", "file:Zone/X", "file:OnlyB", os.path.join(B, "Zone/X"), "UTC", "localtime",
+             "Fixed/UTC-01:00:00", lt1, "file:" + lt2]
+
+    def mk_sequences():
+        seqs = []
+        # deterministic: the data directory / local-time file changes between two first-time uses
+        seqs.append([("E", "TZDIR", A), ("L", "OnlyA"), ("E", "TZDIR", B), ("L", "OnlyB"), ("L", "Zone/X"), ("L", "OnlyA"), ("T",)])
+        seqs.append([("E", "TZDIR", A), ("L", "Zone/Y"), ("E", "TZDIR", B), ("L", "Zone/X"), ("L", "file:Zone/X")])
+        seqs.append([("U", "TZDIR"), ("L", "No/Such"), ("E", "TZDIR", B), ("L", "OnlyB")])
+        seqs.append([("U", "TZ"), ("E", "LOCALTIME", lt1), ("T",), ("E", "LOCALTIME", lt2), ("T",), ("U", "LOCALTIME"), ("T",)])
+        seqs.append([("E", "TZ", "localtime"), ("E", "LOCALTIME", lt2), ("T",), ("E", "LOCALTIME", lt1), ("T",), ("E", "TZ", ":Zone/Y"), ("E", "TZDIR", A), ("T",),
+                     ("E", "TZDIR", B), ("E", "TZ", "Zone/X"), ("T",)])
+        seqs.append([("E", "TZDIR", A), ("E", "TZ", "OnlyB"), ("T",), ("E", "TZDIR", B), ("T",), ("L", "OnlyB")])
+        # a NUL byte in a digit position is not a digit: not a fixed-offset name, and no file either
+        seqs.append([("E", "TZDIR", A), ("L", "Fixed/UTC+0\0:00:00"), ("L", "Fixed/UTC+01:0\0:00"), ("L", "Fixed/UTC-00:00:0\0"), ("L", "Fixed/UTC+01:00:00")])
+        for _ in range(nseq):
+            sq = []
+            for _ in range(r.randrange(6, 16)):
+                k = r.random()
+                if k < 0.35:
+                    var = r.choice(sorted(V))
+                    val = r.choice(V[var])
+                    sq.append(("U", var) if val is None else ("E", var, val))
+                elif k < 0.8:
+                    sq.append(("L", r.choice(NAMES)))
+                else:
+                    sq.append(("T",))
+            seqs.append(sq)
+        return seqs
+
+    seqs = mk_sequences()
+    # reference digests by absolute path, from separate processes
+    ref = {}
+
+    def ref_digest(path):
+        path = os.path.normpath(path)
+        if path not in ref:
+            p, lines = _probe_lines(exe, [path], base_env, timeout=60)
+            ref[path] = next((f[5] for f in lines if f[0] == "L" and f[2] == "1"), None)
+        return ref[path]
+    p, lines = _probe_lines(exe, ["UTC"], base_env, timeout=60)
+    utc_dig = next(f[5] for f in lines if f[0] == "L")
+
+    def run_one(iq):
+        i, sq = iq
+        fn = os.path.join(root, "seq-%04d.txt" % i)
+        with open(fn, "w") as f:
+            for st in sq:
+                f.write(" ".join([st[0]] + [hexs(x) for x in st[1:]]) + "\n")
+        return i, sq, fn, _probe_lines(exe, ["--seq", fn], base_env, timeout=120)
+
+    steps = env_changes = loads_after_change = cached_repeats = local_calls = 0
+    with ThreadPoolExecutor(max_workers=core.ncpu()) as ex:
+        results = list(ex.map(run_one, list(enumerate(seqs))))
+    for i, sq, fn, (p, lines) in results:
+        if p.returncode != 0:
+            errfile = fn + ".err"
+            with open(errfile, "w") as f:
+                f.write(p.stderr)
+            key, text = core.crash_key("exit%d" % p.returncode, errfile, "class=env-sequence")
+            chk.violation(key, "sequence %s\n%s" % (sq, text[:2000]), files=[errfile, fn])
+            continue
+        env = {}
+        cache = {}
+        changed = False
+        out = [f for f in lines if f and f[0] in ("L", "T")]
+        oi = 0
+        hist = []
+
+        def cached_load(name):
+            nonlocal cached_repeats, loads_after_change
+            if name in cache:
+                cached_repeats += 1
+                return cache[name] + ("cached",)
+            if changed:
+                loads_after_change += 1
+            res = model_load(name, env)
+            cache[name] = res
+            return res + ("first",)
+        for st in sq:
+            hist.append(st)
+            if st[0] == "E":
+                env[st[1]] = st[2]
+                changed = True
+                env_changes += 1
+                continue
+            if st[0] == "U":
+                env.pop(st[1], None)
+                changed = True
+                env_changes += 1
+                continue
+            steps += 1
+            if oi >= len(out):
+                chk.violation("probe-output-missing", "sequence %d step %s" % (i, st), files=[fn])
+                break
+            f = out[oi]
+            oi += 1
+            if st[0] == "L":
+                exp_ok, exp_name, path, how = cached_load(st[1])
+                ok, rname, is_utc, dig = f[2] == "1", unhex(f[3]), f[4] == "1", f[5]
+                what = "load"
+            else:
+                local_calls += 1
+                zone, _ = model_local(env)
+                exp_ok, exp_name, path, how = cached_load(zone)
+                ok, rname, is_utc, dig = exp_ok, unhex(f[1]), f[2] == "1", f[3]  # local_time_zone() reports no success flag
+                what = "local"
+            if exp_ok is None:
+                continue
+            bad = None
+            if ok != exp_ok:
+                bad = "%s-%s-but-model-%s" % (what, "succeeded" if ok else "failed", "succeeds" if exp_ok else "fails")
+            elif not exp_ok and (not is_utc or dig != utc_dig):
+                bad = "%s-failed-not-utc" % what if what == "load" else "local-fallback-not-utc"
+            elif exp_ok and exp_name != "UTC" and rname != exp_name:
+                bad = "%s-wrong-name" % what
+            elif exp_ok and path is not None and ref_digest(path) != dig:
+                bad = "%s-resolved-to-different-data" % what
+            if bad:
+                chk.violation("env-history:%s:%s" % (bad, how), "sequence %d: %s\n  at step %s the model (%s resolution, environment %r) expects ok=%s name=%r path=%r; got ok=%s name=%r utc=%s" %
+                              (i, hist, st, how, env, exp_ok, exp_name, path, ok, rname, is_utc), files=[fn])
+                break
+    cov["env_sequences"] = len(seqs)
+    cov["env_sequence_steps_checked"] = steps
+    cov["env_sequence_env_changes"] = env_changes
+    cov["env_sequence_first_loads_after_a_change"] = loads_after_change
+    cov["env_sequence_repeat_loads"] = cached_repeats
+    cov["env_sequence_local_calls"] = local_calls
+    return steps
